@@ -228,8 +228,14 @@ class Gen:
         if self.rng.random() < 0.3:
             items.insert(self.rng.randint(1, len(items)), '...')
         self.defs.append('%s ::= ENUMERATED { %s }' % (t, ', '.join(items)))
+        if self.rng.random() < 0.4:
+            # a decoy: another ENUMERATED type listing the same names with other numbers, its name sorting before or after
+            decoy = self.rng.choice(['Aa', 'Zz']) + t
+            rev = list(reversed(names)) + ['extra%s' % t.lower()]
+            self.defs.append('%s ::= ENUMERATED { %s }' % (decoy, ', '.join(rev)))
+            self.tags.add('shared-enumerals')
         n = self.rng.choice(names)
-        return t, n, ('enum', n.replace('-', '_'))
+        return t, n, ('enum', n.replace('-', '_'), t)
 
     def g_choice(self, depth):
         t = self.fresh('Ch')
@@ -344,7 +350,10 @@ def same(exp, obs):
         if obs[0] == 'arr' and obs[1] == [] and exp[1] == []:
             return True
         return obs[0] == 'bits' and list(exp[1]) == list(obs[1])
-    if k in ('int', 'bool', 'str', 'enum'):
+    if k == 'enum':
+        norm = lambda x: (x or '').replace('-', '').replace('_', '').lower()
+        return obs[0] == k and exp[1] == obs[1] and (len(exp) < 3 or len(obs) < 3 or obs[2] is None or norm(exp[2]) == norm(obs[2]))
+    if k in ('int', 'bool', 'str'):
         return obs[0] == k and exp[1] == obs[1]
     if k == 'null':
         return obs[0] == 'null'
